@@ -45,6 +45,10 @@ func (ss *Segments) UnmarshalJSON(bytes []byte) error {
 	}
 
 	if ss != nil {
+		if *ss == nil {
+			*ss = Segments{}
+		}
+
 		for ix, v := range segments {
 			id := uint8(ix + 1)
 			if id >= 1 && id <= 3 {
